@@ -212,6 +212,35 @@ func checkC19(c *Ctx) {
 					ok = true
 				}
 			}
+			if !ok {
+				// … or written out in Resume itself: each hook of the mode gets its real handler where
+				// the remembered field says "on" and the inert one where it says "off"
+				hooks := map[string][]string{"mouseFlags": {"onMouseClick", "onMouseMove"}, "pasteEnabled": {"onPaste"}}[ra[1]]
+				all := len(hooks) > 0
+				for _, hk := range hooks {
+					real, inert := false, false
+					for _, in := range jsInstalls(rs, 0) {
+						if in.name != hk {
+							continue
+						}
+						byField := false
+						for _, g := range in.guards {
+							if strings.Contains(g.L, "."+ra[1]) {
+								byField = true
+							}
+						}
+						if byField && in.handler == "unset" {
+							inert = true
+						} else if byField && in.kind == "fn" {
+							real = true
+						}
+					}
+					if !real || !inert {
+						all = false
+					}
+				}
+				ok = all
+			}
 			c.Check(ok, "C19-R6", "Resume:reapplies-"+ra[1], p.pos(rs.Pos()), ra[0]+"(t."+ra[1]+") on Resume")
 		}
 	} else {
